@@ -307,7 +307,7 @@ def run(tier, seed, part=None):
         plans = [("api", (300.0, 330.0), 3, 1, 0), ("api", (300.0, 330.0), 2, 1, 1), ("bare", (10.0, 15.0), 4, 0, 0),
                  ("bare", (10.0, 15.0), 3, 1, 0), ("bare", (10.0, 10.5), 3, 1, 0), ("bare", (300.0, 330.0), 3, 0, 0),
                  ("bare", (10.0, 15.0), 2, {"outage": 1, "eof": 1}, 0), ("api", (300.0, 330.0), 1, {"outage": 1}, 0), ("api-late", (300.0, 330.0), 2, 1, 0)]
-        cap = 300
+        cap = 150
     for gen in (4, 5):
         for mode, cfg, beats, side, dev in plans:
             params = {"gen": gen, "mode": mode, "config": list(cfg), "beats": beats, "side": side}
